@@ -60,12 +60,49 @@ CONFIGS = [
     {"name": "api: empty network", "make": api_net([], required=["H", "He"])},
 ]
 FINDINGS = [
+    ("C10-hh93i-stick-needs-leeds", {"name": "api: native grain reactions (hh93i)", "grain": "hh93i",
+                                     "make": api_net([(["CO"], ["#CO"], T.GRAIN_FREEZE), (["#CO"], ["CO"], T.GRAIN_DESORB_THERMAL), (["H", "H"], ["H2"], T.GAS_TWOBODY)],
+                                                     grain="hh93i", required=["GRAIN0"])}),
     ("C10-krome-user-variable-before-Te", {"name": "krome: @var that uses Te", "make": krome_with_var}),
     ("C10-label-in-identifier", cfg_file("tests/data/rate12_HO.leeds", "leeds", "hh93")),
     ("C10-uclchem-h2shielding-needs-H2", cfg_file("tests/data/minimal.ucl", "uclchem", "rr07")),
     ("C10-hh93-ungrouped-symbols", {"name": "api: surface group 1 (hh93)", "make": api_net([(["CO"], ["#1CO"], T.GRAIN_FREEZE), (["#1H", "#1CO"], ["HCO"], T.GRAIN_DESORB_REACTIVE)],
                                                                                              grain="hh93", required=["GRAIN1"])}),
 ]
+
+
+GAS_POOL = [(["H", "H"], ["H2"], T.GAS_TWOBODY), (["H2", "CR"], ["H", "H"], T.GAS_COSMICRAY), (["CO", "PHOTON"], ["C", "O"], T.GAS_PHOTON),
+            (["C+", "H2"], ["CH+", "H"], T.GAS_KIDA_IP1), (["C+", "OH"], ["CO+", "H"], T.GAS_KIDA_IP2), (["CO", "CRPHOT"], ["C", "O"], T.GAS_UMIST_CRPHOT),
+            (["H+", "e-"], ["H"], T.GAS_TWOBODY), (["H", "e-"], ["H+", "e-", "e-"], T.GAS_TWOBODY), (["He+", "e-"], ["He"], T.GAS_TWOBODY)]
+GRAIN_POOL = {
+    "hh93": [(["CO"], ["#CO"], T.GRAIN_FREEZE), (["#CO"], ["CO"], T.GRAIN_DESORB_THERMAL), (["#CO"], ["CO"], T.GRAIN_DESORB_COSMICRAY),
+             (["#CO"], ["CO"], T.GRAIN_DESORB_PHOTON), (["#H", "#CO"], ["#HCO"], T.SURFACE_TWOBODY), (["#H", "#CO"], ["HCO"], T.GRAIN_DESORB_REACTIVE),
+             (["e-", "GRAIN0"], ["GRAIN-"], T.GRAIN_ECAPTURE), (["C+", "GRAIN-"], ["C", "GRAIN0"], T.GRAIN_RECOMINE), (["H"], ["#H"], T.GRAIN_FREEZE)],
+    "rr07": [(["CO"], ["#CO"], T.GRAIN_FREEZE), (["#CO"], ["CO"], T.GRAIN_DESORB_PHOTON), (["#CO"], ["CO"], T.GRAIN_DESORB_COSMICRAY),
+             (["#CO"], ["CO"], T.GRAIN_DESORB_H2), (["H"], ["#H"], T.GRAIN_FREEZE), (["C+"], ["#C"], T.GRAIN_FREEZE), (["e-"], ["#e"], T.GRAIN_FREEZE)],
+}
+GRAIN_POOL["hh93i"] = GRAIN_POOL["hh93"]
+GRAIN_POOL["rr07x"] = GRAIN_POOL["rr07"]
+COOLING = ["CIC_HI", "CIC_HeI", "CIC_HeII", "CIC_He_2S", "RC_HII", "RC_HeI", "RC_HeII", "RC_HeIII", "CEC_HI", "CEC_HeI", "CEC_HeII"]
+
+
+def gen_config(rng, i):
+    """a random combination of gas laws, one dust model's processes and cooling processes (surface group 0)"""
+    grain = rng.choice(["", "hh93", "hh93i", "rr07", "rr07x"])
+    rx = rng.sample(GAS_POOL, rng.randint(1, 5))
+    req = []
+    if grain:
+        rx += rng.sample(GRAIN_POOL[grain], rng.randint(1, 5))
+        req = ["GRAIN0"] if grain.startswith("hh93") else []
+        if grain.startswith("rr07"):
+            rx = [r for r in rx if r[2] != T.GRAIN_FREEZE or r[0] != ["e-"]] or rx
+    cool = rng.sample(COOLING, rng.randint(0, 3)) if rng.random() < 0.5 else []
+    if cool:
+        req += ["H", "H+", "He", "He+", "He++", "e-"]
+    if grain.startswith("rr07") or any(r[2] == T.GRAIN_DESORB_H2 for r in rx):
+        req += ["H", "H2"]
+    name = f"generated {i}: {grain or 'gas'}; " + ", ".join(f"{'+'.join(r)}->{'+'.join(p)}:{t.name}" for r, p, t in rx) + (f"; cooling {cool}" if cool else "")
+    return {"name": name, "grain": grain, "make": api_net(rx, grain=grain, required=sorted(set(req)), cooling=cool)}
 
 
 def registries(comps):
@@ -85,13 +122,16 @@ def compile_unit(path, inc, boost=False):
     return [m.group(1) for m in DIAG.finditer(r.stdout)], (r.returncode != 0 and not DIAG.search(r.stdout), r.stdout[-300:])
 
 
-def check_config(res, model, cfg, methods, finding=None):
+def check_config(res, model, cfg, methods, finding=None, generated=False):
     case = {"kind": "c10", "config": cfg["name"]}
     reset_globals()
     try:
         with quiet():
             net = cfg["make"]()
     except Exception as e:
+        if generated:
+            res.count(f"generated combination refused: {type(e).__name__}")
+            return
         res.violation("correspondence", f"{cfg['name']}: the network cannot be built: {type(e).__name__}: {e}", case)
         return
     c2 = dict(case, finding=finding) if finding else case
@@ -132,7 +172,9 @@ def check_config(res, model, cfg, methods, finding=None):
                 res.count("other g++ errors (types / API stand-in): not part of the property")
                 res.notes.append(f"{cfg['name']} {solver}/{method} {src.name}: {tail[-160:]}") if len(res.notes) < 5 else None
             for dg in diags[:3]:
-                res.violation("oracle", f"{cfg['name']} ({solver}/{method}) {src.name}: g++: {dg}", c2)
+                # HH93I registers hloss = stick * ...; 'stick' is declared by Leeds-format reactions only (known finding)
+                cdg = dict(case, finding="C10-hh93i-stick-needs-leeds") if (cfg.get("grain") == "hh93i" and "stick" in dg and not finding) else c2
+                res.violation("oracle", f"{cfg['name']} ({solver}/{method}) {src.name}: g++: {dg}", cdg)
             if src.name in ("naunet_rates.cpp",) and verdict is not None and solver == "cvode":
                 names = {x for dg in diags for x in re.findall(r"'(\w+)'", dg)}
                 if verdict and diags:
@@ -148,13 +190,16 @@ def check_config(res, model, cfg, methods, finding=None):
 def run(res, info):
     model = fw.Model() if info["ok"] else None
     res.rule = ("12 configurations (five file formats from the test fixtures, dust models hh93 / hh93i / rr07 / rr07x, native grain reactions, cooling, the "
-                "empty network) x back-ends cvode dense / sparse and odeint; every rendered translation unit compiled with g++ -fsyntax-only; plus the "
-                "configurations of two known findings")
+                "empty network) + generated combinations of gas laws, one dust model's processes and cooling processes (4 quick, 40 thorough) x back-ends "
+                "cvode dense / sparse and odeint; every rendered translation unit compiled with g++ -fsyntax-only; plus the configurations of the known findings")
     res.assumptions = ["CUDA sources are not compiled (no nvcc)", "diagnostics other than undeclared / redefined names are counted, not judged"]
     methods = [("cvode", "dense"), ("cvode", "sparse"), ("odeint", "rosenbrock4")]
     for i, cfg in enumerate(CONFIGS):
         ms = methods if (res.tier == "thorough" or i % 3 == 0) else [methods[i % 2]]
         check_config(res, model, cfg, ms)
+    rng = random.Random(res.seed * 7919 + 10)
+    for i in range(4 if res.tier == "quick" else 40):
+        check_config(res, model, gen_config(rng, i), [methods[i % 3]] if res.tier == "quick" else methods, generated=True)
     for fid, cfg in FINDINGS:
         check_config(res, model, cfg, [("cvode", "dense")], finding=fid)
     if model:
